@@ -1029,4 +1029,28 @@ theorem case_regression :
     (Matcher.pats [⟨false, ⟨[cSTAR], port22⟩⟩, ⟨true, ⟨[104], port22⟩⟩]).matches ⟨[72], port22⟩ = false := by
   decide
 
+/-! ## 7. non-vacuity examples -/
+
+/-- file `h <K7>` / `*,!h <K8>` / `@revoked x <K9>` / `@cert-authority * <K5>` -/
+def exDB : DB :=
+  ⟨[(9, 3)], [⟨1, false, .pats [⟨false, ⟨[104], port22⟩⟩], 7⟩,
+     ⟨2, false, .pats [⟨false, ⟨[cSTAR], port22⟩⟩, ⟨true, ⟨[104], port22⟩⟩], 8⟩,
+     ⟨4, true, .pats [⟨false, ⟨[cSTAR], port22⟩⟩], 5⟩]⟩
+
+example : exDB.checkHostKey 0 [104, 58, 50, 50] [120, 58, 50, 50] (.plain 7) = .ok := by decide
+example : exDB.checkHostKey 0 [72, 58, 50, 50] [120, 58, 50, 50] (.plain 8) = .keyErr [1] := by decide   -- H:22
+example : exDB.checkHostKey 0 [97, 58, 50, 50] [120, 58, 50, 50] (.plain 7) = .keyErr [2] := by decide
+example : exDB.checkHostKey 0 [104, 58, 50, 50] [120, 58, 50, 50] (.plain 9) = .revoked 3 := by decide
+example : exDB.checkHostKey 0 [104, 58, 50, 50] [120, 58, 50, 50] (.plain 5) = .keyErr [1] := by decide  -- CA key, plain
+example : exDB.checkHostKey 0 [104] [120, 58, 50, 50] (.plain 7) = .reject := by decide                   -- no port
+/-- a host certificate signed by the listed CA (key 5) is accepted; a user certificate is not -/
+example : exDB.checkHostKey 10 [104, 58, 50, 50] [] (.cert ⟨6, 2, 5, false, [[104]], 0, 2 ^ 64 - 1, true⟩) = .ok := by
+  decide
+example : exDB.checkHostKey 10 [104, 58, 50, 50] [] (.cert ⟨6, 1, 5, false, [], 0, 2 ^ 64 - 1, true⟩) = .reject := by
+  decide
+example : ∃ m, newHashedHost (hashHostname [1, 2, 3] [104]) = some m := by
+  obtain ⟨m, h, _⟩ := hash_matches [1, 2, 3] [104]; exact ⟨m, h⟩
+example : trimSpace ([cSP, cTAB] ++ [104, cSP, 105] ++ [cSP]) = [104, cSP, 105] := by decide
+example : nextWord ([104] ++ [cSP, cSP] ++ [105, cSP, 106]) = ([104], [105, cSP, 106]) := by decide
+
 end XC.C42
